@@ -211,11 +211,70 @@ def oracle_known_decoder_findings(ctx):
             'rule': 'a 4.3 MB text log as a two-block lz4 frame at --blocksz 1000 and 65536, and 150 KB of random bytes as a two-block bz2: same stdout/rc as the plain file'}
 
 
+def oracle_multiblock(ctx):
+    """Text logs spanning many blocks (small --blocksz), with a datetime window and/or without a year in the
+    timestamps (the two paths where the readers treat streamed containers differently: linear instead of
+    binary search, and keeping every block for the backwards year pass). Output must equal the plain file's."""
+    import time as _t
+    rng = e2e.Rng(ctx.seed * 59 + 3)
+    fails, ev, nonempty = [], 0, 0
+    mt = 1719800000   # 2024-07-01: one modification time for every container, so that the year guess agrees
+    for k in range(ctx.q(3, 14)):
+        yearless = k % 3 == 1
+        n = rng.range(300, 1500)
+        t = 1704067200 + rng.below(86400 * 30)
+        lines, ts = [], []
+        for i in range(n):
+            t += rng.pick([0, 1, 1, 2, 30, 600])
+            ts.append(t)
+            g = _t.gmtime(t)
+            head = (_t.strftime('%b %e %H:%M:%S', g) + ' host prog[%d]:' % (100 + i % 7)) if yearless else _t.strftime('%Y-%m-%d %H:%M:%S', g)
+            lines.append(head.encode() + b' m ' + e2e.text_line(rng, 5, 50, weird=False) + b'\n')
+            if rng.chance(1, 6):
+                lines.append(b'   continued ' + e2e.text_line(rng, 0, 40, weird=False) + b'\n')
+        data = b''.join(lines)
+        bs = rng.pick([512, 1024, 2048, 4096])
+        lo, hi = sorted([rng.pick(ts), rng.pick(ts)])
+        mid = ts[len(ts) // 2 + rng.below(len(ts) // 3)]
+        if yearless:
+            variants = [['--blocksz', str(bs)], ['--blocksz', str(bs), '-u']]
+        else:
+            variants = [['--blocksz', str(bs), '-a', '+%d' % lo, '-b', '+%d' % hi], ['--blocksz', str(bs), '-a', '+%d' % mid],
+                        ['--blocksz', str(bs), '-b', '+%d' % mid], ['-a', '+%d' % mid]]
+        base = os.path.join(ctx.work, 'mb_%d' % k)
+        os.makedirs(base, exist_ok=True)
+        plain = os.path.join(base, 'messages.log')
+        e2e.pack(data, 'plain', plain)
+        os.utime(plain, (mt, mt))
+        ref = {}
+        for vi, v in enumerate(variants):
+            ref[vi] = run(plain, v)[:2]
+            ev += 1
+            nonempty += 1 if ref[vi][1] else 0
+        for kind in KINDS:
+            path = plain + e2e.SUFFIX[kind]
+            e2e.pack(data, kind, path, inner_name='messages.log', mtime=mt)
+            os.utime(path, (mt, mt))
+            for vi, v in enumerate(variants):
+                rc, out, err = run(path, v)
+                ev += 1
+                if (rc, out) != ref[vi]:
+                    fails.append({'signature': f'container:{kind}-differs-from-plain',
+                                  'detail': f'multi-block {"year-less " if yearless else ""}log ({len(data)} B) {kind} args {v}: rc={rc} vs {ref[vi][0]}; ' + first_diff(out, ref[vi][1]) + f' stderr={err[-200:]!r}',
+                                  'args': e2e.BASE_ARGS + list(v) + [os.path.basename(path)]})
+            os.unlink(path)
+        os.unlink(plain)
+    return {'evaluations': ev, 'distinct_nontrivial': nonempty, 'failures': fails, 'samples': [],
+            'rule': 'text logs of 300-1500 messages read at --blocksz 512..4096 (tens to hundreds of blocks), every third without a year in its timestamps; '
+                    'windows -a/-b/-a -b inside the log; gz/bz2/xz/lz4/tar vs plain: same stdout and exit status; distinct = reference runs with non-empty output'}
+
+
 def oracle(ctx):
     a = text_oracles.oracle_containers(ctx, ctx.q(6, 40))
     b = oracle_binary_kinds(ctx)
     c = oracle_known_decoder_findings(ctx)
-    return core.merge_oracles([a, b, c])
+    d = oracle_multiblock(ctx)
+    return core.merge_oracles([a, b, c, d])
 
 
 def check(ctx):
